@@ -232,11 +232,11 @@ func TestVerifC24(t *testing.T) {
 		"empty"}
 
 	mc.Run(t, mc.Config{ID: "C24", Name: "C24-opseq", MaxDev: -1, Params: map[string]interface{}{
-		"depth":      fmt.Sprintf("%d (scenario empty: %d)", depth, depth-1),
-		"scenarios":  scenarios,
-		"operations": opNames,
-		"peers":      "u, w, x1..x4, BOOT (boot node): bin 1; b, a0, k0, g0: bin 0; z1..z3: bin 2; g3: bin 3 (k0, g0, g3 are only ever made known, never connected)",
-		"thresholds": "Options.BinMaxPeers=5 -> overSaturation 5, saturation 2, quickSaturation 1",
+		"depth":                     fmt.Sprintf("%d (scenario empty: %d)", depth, depth-1),
+		"scenarios":                 scenarios,
+		"operations":                opNames,
+		"peers":                     "u, w, x1..x4, BOOT (boot node): bin 1; b, a0, k0, g0: bin 0; z1..z3: bin 2; g3: bin 3 (k0, g0, g3 are only ever made known, never connected)",
+		"thresholds":                "Options.BinMaxPeers=5 -> overSaturation 5, saturation 2, quickSaturation 1",
 		"observed_after_every_step": "EachPeer, EachPeerRev, EachKnownPeer, Snapshot (Connected, Population, per-bin lists), SnapshotConnected, Pick for u, w, b",
 		"pruning":                   "canonical state = ordered connected/known bins, reachability of every peer, protect list, depth",
 	}}, func(x *mc.X) {
